@@ -21,7 +21,7 @@ EXTENDS Records, Json, IOUtils, TLC, SequencesExt
 Cases == ndJsonDeserialize(IOEnv.VERIF_TRACE)
 
 AllDevs == {"decode-error-swallowed", "nonsymbol-key-unchecked", "nil-elem-slice-panics",
-            "slice-element-unchecked"}
+            "slice-element-unchecked", "derefset-adopts-definition"}
 DevStr == IF "VERIF_DEVS" \in DOMAIN IOEnv THEN IOEnv.VERIF_DEVS ELSE ""
 HasDev(d) == ReplaceFirstSubSeq("", d, DevStr) # DevStr
 TraceDevs == {d \in AllDevs : HasDev(d)}
